@@ -297,6 +297,29 @@ def enumerate_cases(tier: str, i: int, n: int) -> Iterator[dict]:
                 yield {"shape": list(shape), "start": start, "end": end, "offset": off, "dtype": "f32", "stride": 1 + (start + end + idx) % 2 * (idx % 3 == 1)}
 
 
+def enumerate_huge(tier: str, i: int, n: int) -> Iterator[dict]:
+    """Tensors of a few million elements whose range ends exactly on a slab boundary far into the tensor, for *every* trailing slab size 2..1100
+    (2-D shapes (M, s); in the thorough tier also 3-D shapes whose trailing dims multiply to s): index arithmetic beyond 2^20 elements."""
+    target = 3_500_000
+    idx = 0
+    for s_ in range(2, 1101):
+        idx += 1
+        if idx % n != i:
+            continue
+        M = target // s_
+        shapes = [[M, s_]]
+        if tier != "quick":
+            for a in (2, 3, 7):
+                if s_ % a == 0 and s_ // a > 1:
+                    shapes.append([M, a, s_ // a])
+                    break
+        for shape in shapes:
+            ms = [M - 1, (M * 7) // 10] if tier == "quick" else [M - 1, M - 2, (M * 7) // 10, M // 3 + 1]
+            for k, m in enumerate(ms):
+                start = 0 if k % 2 == 0 else (m // 2) * s_ + 1
+                yield {"shape": shape, "start": start, "end": m * s_, "offset": 0, "dtype": "f32", "stride": 1, "huge": True}
+
+
 def strategy():
     from hypothesis import strategies as st
 
@@ -344,6 +367,7 @@ def strategy_reject():
 
 STREAMS = {
     "exhaustive": Stream("exhaustive", oracle=oracle, enumerate=enumerate_cases, exhaustive=True, shards_quick=16, shards_thorough=16),
+    "huge_boundaries": Stream("huge_boundaries", oracle=oracle, enumerate=enumerate_huge, exhaustive=True, shards_quick=16, shards_thorough=16),
     "random": Stream("random", oracle=oracle, strategy=strategy, quick=4000, thorough=60000, shards_quick=8, shards_thorough=16),
     "reject": Stream("reject", oracle=oracle_reject, strategy=strategy_reject, quick=200, thorough=2000, shards_quick=1, shards_thorough=2),
 }
